@@ -2,6 +2,7 @@
 from __future__ import annotations
 
 import ast
+import time as _time
 
 import z3
 
@@ -17,6 +18,9 @@ def exec_block(self, stmts):
 
 def exec_stmt(self, st):
     self.cur_line = st.lineno
+    dl = getattr(self, "deadline", None)
+    if dl is not None and _time.time() > dl:
+        raise Unsupported("the unit's wall-clock budget for path exploration is used up (undecided, never a verdict)")
     k = type(st)
     if k is ast.Expr:
         if isinstance(st.value, ast.Constant):
